@@ -144,6 +144,14 @@ func runC09(c C09Case, rounds int, rec *recorder) error {
 		c.Prog.AllData[c.Prog.Prog.Files[0].Namespace+".zzDeep"] = map[string]ref.Value{"n": ref.I(300)}
 		c.Prog.AllData[c.Prog.Prog.Files[0].Namespace+".zzShared"] = map[string]ref.Value{"opts": ref.M(map[string]ref.Value{"y": ref.S("why")})}
 	}
+	// (part of the bundles are put together through the lower-level API, with and without the message pass)
+	switch hashCase(c) % 5 {
+	case 0:
+		handBuilt = 1
+	case 1, 2:
+		handBuilt = 2
+	}
+	defer func() { handBuilt = 0 }() // (every compilation of this case, by whichever goroutine, goes the same way)
 	cb, err, pn := compileBundle(names, srcs, c.Prog.Prog.Globals)
 	if err != nil || pn != nil {
 		if strings.Contains(fmt.Sprint(err, pn), "zzBuiltins") {
